@@ -7,6 +7,7 @@ mod c12;
 mod c13;
 mod c14;
 mod c15;
+mod c16;
 mod c18;
 mod c20;
 mod c21;
@@ -15,6 +16,7 @@ mod c23;
 mod c25;
 mod c26;
 mod c27;
+mod c28;
 mod c29;
 mod genair;
 mod obj;
@@ -46,6 +48,7 @@ fn main() {
         "c13" => c13::run(&mut rng, &mut out, n),
         "c14" => c14::run(&mut rng, &mut out, n),
         "c15" => c15::run(&mut rng, &mut out, n),
+        "c16" => c16::run(&mut rng, &mut out, n),
         "c17" => c15::run_c17(&mut rng, &mut out, n),
         "c18" => c18::run(&mut rng, &mut out, n),
         "c20" => c20::run(&mut rng, &mut out, n),
@@ -66,6 +69,7 @@ fn main() {
         "objseed" => obj::run_seed(&mut rng, &mut out, n),
         "c27" => c27::run(&mut rng, &mut out, n),
         "c27x" => c27::run_exhaustive(&mut out, n),
+        "c28" => c28::run(&mut rng, &mut out, n),
         "c29" => c29::run(&mut rng, &mut out, n),
         "c29t" => c29::run_table(&mut rng, &mut out, n),
         _ => {
